@@ -226,6 +226,38 @@ func runC02(r *core.Run) {
 			return core.Outcome{Class: fmt.Sprint("len-bucket=", bucket(c.Len)), Nontrivial: c.Len >= 2, Evals: 4}
 		})
 
+	core.Clause(r, "lengths-by-content", core.Opts{Rule: "content class (2-byte UTF-8, mixed UTF-8, invalid high bytes, percent verbs, quotes/backslashes, UTF-8 cut mid-rune) x every length 0..300, 4095..4097, 65535..65537 for name, sequence and qualities of the middle record of three; written (== four-line model) and read back; non-trivial = length >= 2"},
+		func(emit func(c01Len) bool) {
+			var ls []int
+			for l := 0; l <= 300; l++ {
+				ls = append(ls, l)
+			}
+			ls = append(ls, 4095, 4096, 4097, 65535, 65536, 65537)
+			for _, cl := range contentClassNames {
+				for _, l := range ls {
+					if !emit(c01Len{l, cl}) {
+						return
+					}
+				}
+			}
+		},
+		func(c c01Len) core.Outcome {
+			body := contentOf(c.Layout, c.Len, "\r\n")
+			recs := []fqRec{{"first", "ACGT", "IIII"}, {core.S(body), core.S(body), core.S(body)}, {"last", "TT", "+@"}}
+			data, fail := writeFastqChecked(recs)
+			if fail != "" {
+				return core.Failf("content class %s: %s", c.Layout, fail)
+			}
+			got, p := readFastqAll(data)
+			if p != "" {
+				return core.Failf("Reader panicked/hung on content class %s, length %d: %s", c.Layout, c.Len, p)
+			}
+			if !sameShape(got, wantFastq(recs)) {
+				return core.Failf("content class %s, length %d is not read back: got %s", c.Layout, c.Len, trunc(renderObs(got), 300))
+			}
+			return core.Outcome{Class: c.Layout, Nontrivial: c.Len >= 2, Evals: 4}
+		})
+
 	r.Bound("marked-offsets", markBounds+"; fields name / sequence / qualities, bytes '@' and '+'"+core.Pick(r, "", " and ' ', TAB, 0x00, 0xFF"))
 	core.Clause(r, "marked-offsets", core.Opts{Rule: "a format-vocabulary byte at EVERY offset of a long name, sequence or quality string (it meets every internal buffer boundary of the reader); written with Write, read back as the middle record of three; non-trivial = all"},
 		genMarks([]string{"name", "seq", "qual"}, core.Pick(r, []int{'@', '+'}, []int{'@', '+', ' ', '\t', 0x00, 0xFF}), nil),
